@@ -10,7 +10,7 @@ TECH = 'CBMC 6.11 code contracts (goto-instrument --dfcc) on functions extracted
 
 # id -> (decided text, not-decided list, design ref)
 P = {
- 'C01': ('Proof (contracts, all inputs) of the per-edge kernels the region semantics rests on: IsContributingClosed == boundary test of OP(cliptype, FILLED(fillrule, w_subj), FILLED(fillrule, w_clip)) for all 5x4 combinations and all winding numbers; the winding-count update of IntersectEdges preserves the face-winding representation; AddNewIntersectNode keeps the vertex in the scanbeam and on an edge; SetWindCountForClosedPathEdge (bounded AEL) establishes the representation; ring surgery (AddOutPt, JoinOutrecPaths, AddLocalMaxPoly, SwapOutrecs, DuplicateOp) keeps the OutPt rings consistent; UpdateEdgeIntoAEL advances an edge to the next vertex in its winding direction and schedules a scanline at its top; the join pairing is maintained by Split/CheckJoinLeft/CheckJoinRight; IsValidAelOrder orders edges that are apart by x alone; bounded DoTopOfScanbeam and InsertLeftEdge.',
+ 'C01': ('Proof (contracts, all inputs) of the per-edge kernels the region semantics rests on: IsContributingClosed == boundary test of OP(cliptype, FILLED(fillrule, w_subj), FILLED(fillrule, w_clip)) for all 5x4 combinations and all winding numbers; the winding-count update of IntersectEdges preserves the face-winding representation; AddNewIntersectNode keeps the vertex in the scanbeam and on an edge; SetWindCountForClosedPathEdge (bounded AEL) establishes the representation; ring surgery (AddOutPt, JoinOutrecPaths, AddLocalMaxPoly, SwapOutrecs, DuplicateOp) keeps the OutPt rings consistent; UpdateEdgeIntoAEL advances an edge to the next vertex in its winding direction and schedules a scanline at its top; the join pairing is maintained by Split/CheckJoinLeft/CheckJoinRight; IsValidAelOrder orders edges that are apart by x alone; bounded DoTopOfScanbeam and InsertLeftEdge; the Paths64 wrappers BooleanOp/Union always run the operation (no shortcut on empty clips).',
          ['AEL ordering, intersection ordering, horizontals, ring assembly, intersection-point accuracy (both precision builds): invariants over unbounded linked structures / floating point'], '5 C01'),
  'C03': ('Proof of the structural predicates (PtsReallyClose, IsVerySmallTriangle, IsValidClosedPath) and of DoSplitOp (the splice creates no equal neighbours; loop-free, rings of 4/5/6); bounded checks of BuildPath64 (>=3 vertices, no equal neighbours incl. last/first) and CleanCollinear (no removable vertex left, over abstract geometry).',
          ['FixSelfIntersects loop, bounding-box clause, all geometric clauses (spikes beyond CleanCollinear, crossings, orientation vs nesting, Union idempotence)'], '5 C03'),
@@ -18,15 +18,15 @@ P = {
          ['nesting correctness of the owner search as a whole (see finding F14 in DESIGN.md), area equality'], '5 C04'),
  'C05': ("Proof of IsContributingOpen == the statement's inside/outside rule per clip type and fill rule; the builders hand open OutRecs to the open solution with isOpen=true in both variants; bounded SetWindCountForOpenPathEdge and AddPaths_ open end flags.",
          ['where pieces are cut, lengths, tolerance; closed result unchanged by open subjects'], '5 C05'),
- 'C06': ('Proof of the sign/orientation plumbing of polygon offsetting (Group reversal flag, group_delta_ sign, |delta|<0.5 and delta==0 shortcuts, clean-up union fill rule / ReverseSolution) and of the join selection of OffsetPoint the vertex traversal of OffsetPolygon (call-trace contracts) and BuildNormals (one normal per vertex, cyclic successor).',
+ 'C06': ('Proof of the sign/orientation plumbing of polygon offsetting (Group reversal flag, group_delta_ sign, |delta|<0.5 and delta==0 shortcuts, clean-up union fill rule / ReverseSolution) and of the join selection of OffsetPoint the vertex traversal of OffsetPolygon (call-trace contracts) and BuildNormals (one normal per vertex, cyclic successor); DoBevel/DoMiter/DoRound place their vertices along the adjacent edge normals by the signed group delta (floating-point operations uninterpreted); arc step set up per group before round joins or round ends are drawn.',
          ['the offset region itself (trigonometry, floating point), DoSquare/DoMiter/DoRound geometry'], '5 C06'),
- 'C07': ('Proof that per-path state of DoGroupOffset (end type, delta) is re-derived from the group for every path, and of OffsetOpenPath (caps by end type at both ends, forward pass, normal reversal, backward pass).',
+ 'C07': ('Proof that per-path state of DoGroupOffset (end type, delta) is re-derived from the group for every path, and of OffsetOpenPath (caps by end type at both ends, forward pass, normal reversal, backward pass); arc step set up for round ends.',
          ['stroke geometry, +-delta symmetry, OffsetOpenJoined'], '5 C07'),
  'C08': ('Proof of GetLocation (exact side / inside classification), Rect64 predicates, location arithmetic, the Execute shortcuts (inside paths returned unchanged, outside paths dropped), and RectClip64::ExecuteInternal: corner insertion indexes only sides, corner loops terminate, indices in range; RectClip64::Add ring building; Path1ContainsPath2 vote.',
          ['what the location state machine outputs beyond safety, TidyEdges, intersection points, winding equality'], '5 C08'),
  'C09': ('Proof of the shared rectangle kernel incl. GetNextLocation (loop contracts), RectClipLines64::Execute shortcuts and per-polyline scratch reset, ExecuteInternal call trace (walk starts at segment 1); bounded GetPath (ring order, two-point pieces kept).',
          ['piece positions and lengths (intersection points)'], '5 C09'),
- 'C10': ('Proof of index/iterator safety and UB-freedom (bounds, pointers, signed overflow, conversions, division by zero, float overflow/NaN where stated) of every function under contract, with the coordinate ranges of the property as preconditions; call-site preconditions of the offsetting helpers; GetDx/TopX integer arithmetic; CheckSplitOwner progress contract (termination).',
+ 'C10': ('Proof of index/iterator safety and UB-freedom (bounds, pointers, signed overflow, conversions, division by zero, float overflow/NaN where stated) of every function under contract, with the coordinate ranges of the property as preconditions; call-site preconditions of the offsetting helpers; GetDx/TopX integer arithmetic; CheckSplitOwner progress contract (termination); MoveSplits keeps every split list owned (no leak); bounded PointInPolygon on polygons lying in the query line.',
          ['termination and memory safety of whole operations; leaks; the allocation-failure clause (no exceptions in the verified C dialect)'], '5 C10'),
  'C11': ('Proof of CheckPrecisionRange (both exception configurations), ScalePath/ScalePaths error reporting, PathsD entry points check precision first and return empty on error (call-trace), export-layer argument validation; AddLocalMaxPoly clears succeeded_ only on a front/back mismatch without an open end.',
          ['"Execute returns true for every input" (needs a global sweep invariant)'], '5 C11'),
@@ -38,15 +38,15 @@ P = {
          ['interleavings (CBMC has no threads); nothing here explores schedules'], '5 C14'),
  'C15': ('Proof of SetZ; USINGZ and plain IntersectEdges make the same building calls and every vertex created at a crossing reaches SetZ exactly once iff a callback is installed; the USINGZ/plain twins of the offsetting helpers emit bit-identical x,y; Point::Init copies z; ClipperOffset::ZCB / ClipperD::ZCB / the DoSplitOp callback never touch x,y and account for z; every x/y contract re-proved with -DUSINGZ.',
          ['equality of whole solutions across builds; ClipperD::CheckCallback (std::bind)'], '5 C15'),
- 'C16': ('Proof (call-trace contracts) that every PathsD overload forwards to the integer operation with the documented scale on paths, delta and arc tolerance and descales the result; Point<int64_t>::Init(double) rounds to a nearest integer; BuildPathsD/BuildTreeD pass invScale_; ScalePath scales x by scale_x and y by scale_y; bounded BuildPathD descaling.',
+ 'C16': ('Proof (call-trace contracts) that every PathsD overload forwards to the integer operation with the documented scale on paths, delta and arc tolerance and descales the result; Point<int64_t>::Init(double) rounds to a nearest integer; BuildPathsD/BuildTreeD pass invScale_; ScalePath scales x by scale_x and y by scale_y; bounded BuildPathD descaling; ScaleRect<int64,double> rounds each side; PolyPath Clear frame.',
          ['rounding of x*scale itself (floating-point product), precision loss on descale, equality of complete results'], '5 C16'),
- 'C17': ('Proof (call-trace contracts) that every exported function forwards every parameter to the slot of the same meaning; argument validation; marshaling length arithmetic and in-bounds access; CRectToRect / ConvertCPathToPathT.',
+ 'C17': ('Proof (call-trace contracts) that every exported function forwards every parameter to the slot of the same meaning; argument validation; marshaling length arithmetic and in-bounds access; CRectToRect / ConvertCPathToPathT; bounded ConvertCPathsDToPaths64 order and rounding.',
          ['equality of complete results with the C++ call beyond forwarding and marshaling'], '5 C17'),
- 'C18': ('Proof for all 64-bit inputs whose differences do not overflow: TriSign, ProductsAreEqual, CrossProductSign, IsCollinear on both the __int128 and the portable branch (products as exact ghost products), Multiply carry chain; bounded PointInPolygon vs exact even-odd oracle.',
+ 'C18': ('Proof for all 64-bit inputs whose differences do not overflow: TriSign, ProductsAreEqual, CrossProductSign, IsCollinear on both the __int128 and the portable branch (products as exact ghost products), Multiply carry chain; bounded PointInPolygon vs exact even-odd oracle; GetSegmentIntersectPt: parallel reported, result on the first segment (t clamped), no integer overflow.',
          ['accuracy of GetSegmentIntersectPt, GetClosestPointOnSegment, Area (floating-point multiply/divide is beyond every installed back end); the 64x64 multiplier itself (assumption A1/A2)'], '5 C18'),
  'C19': ('Minkowski quad construction (indices, closing edge iff closed, count) and forwarding to Union(NonZero); empty input => empty result.',
          ['that the union of the quads is right (= C01)'], '5 C19'),
- 'C20': ('Proof (loop contracts, unbounded length) for GetNext/GetPrior, RDP/RamerDouglasPeucker, TrimCollinear (in-order subsequence, open end points kept, index safety), GetBounds and TranslatePath (defining equations); bounded SimplifyPath and RDP epsilon clause.',
+ 'C20': ('Proof (loop contracts, unbounded length) for GetNext/GetPrior, RDP/RamerDouglasPeucker, TrimCollinear (in-order subsequence, open end points kept, index safety), GetBounds (int64 and double) and TranslatePath (defining equations); bounded SimplifyPath and RDP epsilon clause.',
          ['Length, Ellipse, area preservation, StripNearEqual/StripDuplicates (floating point / std::unique)'], '5 C20'),
 }
 NA = {
